@@ -90,9 +90,9 @@ def int_oracle(ctx):
         for groups in (1, 2, 3, 4, 6):
             for _ in range(ctx.budget(12, 120)):
                 gs = [''.join(rng.choice(digs) for _ in range(rng.randint(1, 4))) for _ in range(groups)]
-                if prefix == '' and gs[0][0] == '0' and (len(gs[0]) > 1 or groups > 1): gs[0] = rng.choice('123456789') + gs[0][1:]
                 cases.append((prefix + '_'.join(gs), int(''.join(gs), base)))
-    cases += [('1_000', 1000), ('1_000_000', 1000000), ('1_2_3_4', 1234), ('0x_ff', None), ('0b1111_0000_1010', 0xf0a), ('0', 0), ('0_0', None)]
+    cases += [('1_000', 1000), ('1_000_000', 1000000), ('1_2_3_4', 1234), ('0x_ff', None), ('0b1111_0000_1010', 0xf0a), ('0', 0), ('0_0', 0), ('00', 0), ('007', 7), ('09', 9), ('0_1', 1), ('0_59', 59), ('000_123', 123), ('0x0_1', 1), ('0o07', 7),
+              ('0b0_0', 0), ('010', 10), ('0_10', 10)]
     texts, bad, n = [], 0, 0
     for text, val in cases:
         if val is None: continue
